@@ -572,6 +572,7 @@ func (n *node) RouteLinkPID(pid gen.PID, target gen.PID) error {
 		if _, exist := n.processes.Load(target); exist == false {
 			return gen.ErrProcessUnknown
 		}
+		lib.VerifPoint("route.add", pid)
 		return n.targetManager.AddLink(pid, target)
 	}
 
@@ -632,6 +633,7 @@ func (n *node) RouteLinkProcessID(pid gen.PID, target gen.ProcessID) error {
 		if _, exist := n.names.Load(target.Name); exist == false {
 			return gen.ErrProcessUnknown
 		}
+		lib.VerifPoint("route.add", pid)
 		return n.targetManager.AddLink(pid, target)
 	}
 
@@ -689,6 +691,7 @@ func (n *node) RouteLinkAlias(pid gen.PID, target gen.Alias) error {
 		if _, exist := n.aliases.Load(target); exist == false {
 			return gen.ErrAliasUnknown
 		}
+		lib.VerifPoint("route.add", pid)
 		return n.targetManager.AddLink(pid, target)
 	}
 
@@ -754,6 +757,7 @@ func (n *node) RouteLinkEvent(pid gen.PID, target gen.Event) ([]gen.MessageEvent
 		}
 
 		event := value.(*eventOwner)
+		lib.VerifPoint("route.add", pid)
 		if err := n.targetManager.AddLink(pid, target); err != nil {
 			return nil, err
 		}
@@ -871,6 +875,7 @@ func (n *node) RouteMonitorPID(pid gen.PID, target gen.PID) error {
 				return gen.ErrProcessTerminated
 			}
 		}
+		lib.VerifPoint("route.add", pid)
 		return n.targetManager.AddMonitor(pid, target)
 	}
 
@@ -934,6 +939,7 @@ func (n *node) RouteMonitorProcessID(pid gen.PID, target gen.ProcessID) error {
 				return gen.ErrProcessTerminated
 			}
 		}
+		lib.VerifPoint("route.add", pid)
 		return n.targetManager.AddMonitor(pid, target)
 	}
 
@@ -993,6 +999,7 @@ func (n *node) RouteMonitorAlias(pid gen.PID, target gen.Alias) error {
 		if _, exist := n.aliases.Load(target); exist == false {
 			return gen.ErrAliasUnknown
 		}
+		lib.VerifPoint("route.add", pid)
 		return n.targetManager.AddMonitor(pid, target)
 	}
 
@@ -1057,6 +1064,7 @@ func (n *node) RouteMonitorEvent(pid gen.PID, target gen.Event) ([]gen.MessageEv
 			return nil, gen.ErrEventUnknown
 		}
 		event := value.(*eventOwner)
+		lib.VerifPoint("route.add", pid)
 		if err := n.targetManager.AddMonitor(pid, target); err != nil {
 			return nil, err
 		}
